@@ -737,3 +737,33 @@ def U_SC_games(block_sizes=(256,)):
             for m in (0, 8):
                 games.append(_sliding_corridor(n, p, q, m))
     return games
+
+
+def U_M_games():
+    """tiny surviving mass and tolerance-level false ties (found by an independent search for genuine defects):
+    (a) a probabilistic state whose dead branches carry all but 1e-13 / 2^-54 of the probability, with a rewarded live branch,
+        as the initial state or behind a coin: after conditioning the live branch must get probability 1;
+    (b) a Player-1 state whose second action is worse by less than the rounding granularity (value 0.5 against
+        0.5 * (1 - t)) and leads back to it through a state that only leaks into the losing state."""
+    games = []
+    for t in (1e-13, 2.0 ** -54, 1e-10):
+        for placement in ("direct", "behindPR"):
+            for order in (0, 1):
+                names = (["entry"] if placement != "direct" else []) + ["focus", "V", "L", "W"]
+                idx = {nme: i for i, nme in enumerate(names)}
+                rest = 0.5 - t
+                row = [(0.5, idx["L"]), (rest, idx["L"]), (t, idx["V"])]
+                if order:
+                    row = [row[2], row[0], row[1]]
+                st = {"focus": (PR, 1, row), "V": (PR, 100, [(1, idx["W"])]), "L": (PR, 0, [(1, idx["L"])]), "W": (PR, 0, [(1, idx["W"])])}
+                if placement == "behindPR":
+                    st["entry"] = (PR, 0, [(0.5, idx["focus"]), (0.5, idx["W"])])
+                games.append(dict(rewards=[st[n_][1] for n_ in names], players=[st[n_][0] for n_ in names],
+                                  transition_list=[list(st[n_][2]) for n_ in names], final_states=[idx["W"]]))
+    for t in (1e-7, 4e-7):
+        for r0 in (0, 1):
+            # 0: P1 (a -> 1, ab -> 2); 1: (1-t -> 0, t -> L); 2: (1/2 W, 1/2 L)
+            games.append(dict(rewards=[r0, 0, 0, 0, 0], players=[P1, PR, PR, PR, PR],
+                              transition_list=[[(ACTIONS[0], 1), (ACTIONS[1], 2)], [(1 - t, 0), (t, 3)], [(0.5, 4), (0.5, 3)], [(1, 3)], [(1, 4)]],
+                              final_states=[4]))
+    return games
